@@ -51,6 +51,9 @@ STEPS = {
     "tx1": [dict(k="feed", ep=4, n=1, last=1), dict(k="drain")], "tx20": [dict(k="feed", ep=4, n=20, last=1), dict(k="drain")],
     "tx64": [dict(k="feed", ep=4, n=64, last=1), dict(k="drain")], "tx100": [dict(k="feed", ep=4, n=100, last=1), dict(k="drain")],
     "tx_nolast": [dict(k="feed", ep=4, n=64, last=0), dict(k="drain")],
+    # two-packet transfers of many lengths: the byte that closes the second packet is accepted at a different time after
+    # the first packet's IN token for each length and producer pace (ACK / packet-completion coincidences)
+    **{f"tx{n}": [dict(k="feed", ep=4, n=n, last=1), dict(k="drain")] for n in (66, 70, 75, 80, 90, 110, 128, 130)},
     "tx_feed_only": [dict(k="feed", ep=4, n=30, last=1)], "in4": [dict(k="in", ep=4, ack=1)], "in4_noack": [dict(k="in", ep=4, ack=0)],
     "sof": [dict(k="sof")],
 }
@@ -99,19 +102,22 @@ CATEGORIES = [
     ["clear_halt_in4"] * 4 + ["clear_halt_out4"] * 3 + ["clear_halt_in4_lost_ack", "clear_halt_out4_lost_ack"]
     + ["clear_halt_" + n for n in sorted(CLEAR_HALT) if n not in ("in4", "out4")],
     LOST_ACK_STEPS,
+    # a third tx category: the step mix grew by two categories (clear-halts, lost-ACK composites); this keeps the share
+    # of plain tx-stream transfers -- whose ACK / packet-completion coincidences need many tries -- where it was
+    ["tx66", "tx70", "tx75", "tx80", "tx90", "tx100", "tx110", "tx128", "tx130", "tx64"],
 ]
 
 
 class Serial(Sub):
     name = "acm"
-    budget = {"quick": 320, "thorough": 8000}
+    budget = {"quick": 480, "thorough": 8000}
     shrink_budget = 150
     rule = ("host histories against USBSerialDevice: optionally the standard enumeration sequence (device descriptor 8 "
             "then 18 bytes, SET_ADDRESS, qualifier (absent), configuration 9 then full, strings, SET_CONFIGURATION), "
             "then 1..14 steps in any order from: any enumeration step, SET_LINE_CODING (with its 7-byte OUT data stage, "
             "also with a lost status ACK), the other CDC class requests with and without data stages, vendor and "
             "reserved-type requests, bulk OUT packets of 0/1/13/64 bytes (in sequence and repeated) under generated "
-            "rx back-pressure, tx stream transfers of 1/20/64/100 bytes fetched with IN until the endpoint NAKs, IN "
+            "rx back-pressure, tx stream transfers of 1/20/64/66..130 bytes fetched with IN until the endpoint NAKs, IN "
             "polls of the notification endpoint, SOFs, and complete CLEAR_FEATURE(ENDPOINT_HALT) requests (also with a "
             "lost status ACK) naming the data-IN address 0x84, the data-OUT address 0x04 (same number, other "
             "direction), the notification endpoint and absent addresses (0x03, 4's one-bit neighbours 5/12/0, 1) at "
